@@ -86,7 +86,7 @@ def _mk_key_reflexive(prog, nan):
     from mirsym.engine import Engine
     suffix = 'boxed' if nan else 'enum'
 
-    @obligation(f'C10.K2.{suffix}.map_key_finds_itself', 'C10', programs=(prog,), also=('C11',))
+    @obligation(f'C10.K2.{suffix}.map_key_finds_itself', 'C10', programs=(prog,))
     def key_reflexive(res, tier):
         """the key equality of the hash map (<Value as PartialEq>::eq, real code) is reflexive on every well-formed value and the
         hash of a value is a function of the value: a value stored as a map key finds its own entry again"""
